@@ -133,6 +133,8 @@ def _round(e, st, args, kw, n):
 @builtin('numpy.rint', 'numpy.round')
 def _rint(e, st, args, kw, n):
     v = args[0]
+    if isinstance(v, tuple) and v and v[0] == 'linspace':
+        return v          # np.rint(np.linspace(0, N, T+1)).astype(int64): same assumed contract (monotone, 0 .. N)
     if isinstance(v, SV) and v.ty == 'real':
         return SV(z3.ToReal(round_half_even(v.t)), 'real')
     raise Unsupported('rint')
@@ -542,3 +544,18 @@ def _np_array(e, st, args, kw, n):
         t = z3.Store(t, k, I(x))
     st.heap[a.base] = t
     return a
+
+
+def array_scalar_op(e, st, op, arr, sc, n):
+    """whole-array arithmetic array (+|-|*) scalar on a 1-D array: a fresh array defined elementwise"""
+    if not (isinstance(arr, Arr) and arr.ndim == 1):
+        raise Unsupported('whole-array arithmetic on a multi-dimensional array')
+    sc = e.tosv(sc)
+    ety = 'real' if (arr.ety == 'real' or sc.ty == 'real') else arr.ety
+    new = e.new_array(st, 'elementwise', arr.shape, ety, arr.dt if ety == arr.ety else DT('real', 'float64'))
+    q = z3.Int('ew!%d' % next(_ctr))
+    old = SV(e.sel(st, arr, [q]), arr.ety)
+    val = e.binop(op, old, sc, st, n)
+    val = e.store_cast(val, new, st, n)
+    st.pc.append(z3.ForAll([q], z3.Select(st.heap[new.base], q) == val, patterns=[z3.Select(st.heap[new.base], q)]))
+    return new
